@@ -144,6 +144,7 @@ def main():
     else:
         cases = gen_cases(ck.rng, args.tier, models)
     impl = vlib.run_impl("c01.py", cases)
+    decpost.front_end_check(ck, "C01fe", cases)
     terms = [f"vpost (parse_post cc (fun _ => None) true {decpost.coq_stmts(c['stmts'])})" for c in cases]
     model = vlib.run_model("C01", ["Lib.PyDict", "Decay.Conj", "Decay.GenTables", "Dec.Tables", "Dec.Syntax", "Dec.Post"],
                            "fun v : val => v", terms, shard=60)
